@@ -63,21 +63,34 @@ class PoolWorld(object):
         self.hold_handshake = [False]
         self.held_handshakes = []
         self.direct_events = []
+        self.replace_log = []
+        self.pool_info = {}
         self.viol = []
         pw = self
         base = self.env.conn_class
 
         class Traced(base):
+            sim_connected_trace = None        # world.trace index at which the handshake completed (connected_event set)
+
             def __init__(self, *a, **kw):
                 base.__init__(self, *a, **kw)
                 pw.hook(self)
+                pw.watch_pool(owner_of(self))
+                ev = self.connected_event
+                real_set = ev.set
+
+                def set_and_note():
+                    if not ev.is_set() and self.sim_connected_trace is None:
+                        self.sim_connected_trace = len(pw.world.trace)
+                    return real_set()
+                ev.set = set_and_note
 
             def close(self):
                 if not self.is_closed:
                     pool = owner_of(self)
                     pw.closes.append({'conn': self.sim_id, 'pending': sorted(self._requests.keys()), 'orphans': sorted(self.orphaned_request_ids),
                                       'in_flight': self.in_flight, 'defunct': bool(self.is_defunct), 'phase': pw.phase[0],
-                                      'threshold_reached': bool(self.orphaned_threshold_reached),
+                                      'threshold_reached': bool(self.orphaned_threshold_reached), 'connected': bool(self.connected_event.is_set()),
                                       'pool_shutdown': bool(getattr(pool, 'is_shutdown', False)), 't': pw.world.now,
                                       'trace_index': len(pw.world.trace)})
                 return base.close(self)
@@ -103,6 +116,32 @@ class PoolWorld(object):
         for cstate, req, r in hs:
             cstate.node.apply(cstate, req, r)
         return len(hs)
+
+    # ------------------------------------------------------------------ when did a pool shut down, and what was in its trash then
+    def watch_pool(self, pool):
+        if pool is None or id(pool) in self.pool_info:
+            return
+        rec = {'pool': pool, 'shutdown_trace': None, 'trash_at_shutdown': set(), 'installed_at_shutdown': set()}
+        self.pool_info[id(pool)] = rec
+        real_shutdown = pool.shutdown
+        world = self.world
+
+        def shutdown():
+            if rec['shutdown_trace'] is None:
+                rec['shutdown_trace'] = len(world.trace)
+                rec['trash_at_shutdown'] = set(getattr(c, 'sim_id', None) for c in getattr(pool, '_trash', ()))
+                inst = list(getattr(pool, '_connections', None) or []) + [getattr(pool, '_connection', None)]
+                rec['installed_at_shutdown'] = set(c.sim_id for c in inst if c is not None)
+            return real_shutdown()
+        pool.shutdown = shutdown           # every caller looks the method up on the instance
+
+    def pool_rec(self, pool):
+        return self.pool_info.get(id(pool), {'pool': pool, 'shutdown_trace': None, 'trash_at_shutdown': set(), 'installed_at_shutdown': set()})
+
+    def installed_after_shutdown(self, conn):
+        """the pool's shutdown() had been called and this connection was not among the pool's connections at that moment"""
+        rec = self.pool_rec(owner_of(conn))
+        return rec['shutdown_trace'] is not None and conn.sim_id not in rec['installed_at_shutdown']
 
     # ------------------------------------------------------------------ monitors under conn.lock
     def hook(self, conn):
@@ -144,7 +183,26 @@ class PoolWorld(object):
             c.set_max_requests_per_connection(HostDistance.LOCAL, maxr)
         self.session = self.cluster.connect()
         self.rec = Recorder(self.world)
+        # observe which code path asks for a replacement of which connection (Session.submit is looked up on the instance by the pools)
+        import sys
+        orig_submit = self.session.submit
+        log = self.replace_log
+
+        def submit(fn, *a, **kw):
+            if getattr(fn, '__name__', '') == '_replace' and a:
+                log.append((sys._getframe(1).f_code.co_name, getattr(a[0], 'sim_id', None), id(getattr(fn, '__self__', None))))
+            return orig_submit(fn, *a, **kw)
+        self.session.submit = submit
         return self.session
+
+    def duplicate_replacements(self, pool):
+        """connections for which borrow_connection asked for a replacement more than once (the second request found _is_replacing
+        already reset by the first, completed, replacement)"""
+        seen = {}
+        for who, cid, pid in self.replace_log:
+            if who == 'borrow_connection' and pid == id(pool):
+                seen[cid] = seen.get(cid, 0) + 1
+        return sorted(c for c, n in seen.items() if n > 1)
 
     def pools(self):
         return list(self.session._pools.values())
